@@ -266,6 +266,9 @@ func c18Case(c *fx.Ctx, g gen.GV, level int, f codec.Format, recursion bool) {
 		c.Violation(fmt.Sprintf("value-modified-by-second-marshal:%s:%s", f, g.Class), fmt.Sprintf("second marshaling of %s modified the value", g.Name), w)
 	}
 	c.Distinct("nontrivial", before)
+	if c.Index()%101 == 0 {
+		c.Sample(fmt.Sprintf("%s (%s, recursion=%v): snapshot unchanged: %s", g.Name, f, recursion, clipS(before)))
+	}
 }
 
 // containsMap: documents of values containing Go maps depend on map iteration order and are not compared byte for byte.
